@@ -31,6 +31,12 @@ type WellKnownResult struct {
 // LookupWellKnown looks up a well-known record for a matrix server. If one if
 // found, it returns the server to redirect to.
 func LookupWellKnown(ctx context.Context, serverNameType spec.ServerName) (*WellKnownResult, error) {
+	return lookupWellKnown(ctx, serverNameType, nil)
+}
+
+// lookupWellKnown is LookupWellKnown with the HTTP client to send the request with;
+// nil means a client on the default transport.
+func lookupWellKnown(ctx context.Context, serverNameType spec.ServerName, httpClient *http.Client) (*WellKnownResult, error) {
 	serverName := string(serverNameType)
 
 	// Handle ending "/"
@@ -44,7 +50,10 @@ func LookupWellKnown(ctx context.Context, serverNameType spec.ServerName) (*Well
 		return nil, err
 	}
 	// Given well-known should be quite small and fast to fetch, timeout the request after 30s.
-	client := http.Client{Timeout: time.Second * 30}
+	client := httpClient
+	if client == nil {
+		client = &http.Client{Timeout: time.Second * 30}
+	}
 	resp, err := client.Do(req)
 	if err != nil {
 		return nil, err
